@@ -65,6 +65,11 @@ impl Ntv2Grid {
                 .push(name);
         }
 
+        // The sub-grid hierarchy must be rooted: `find_grid` starts from the children of `NONE`
+        if !lookup_table.contains_key("NONE") {
+            return Err(Error::Invalid("No base grid (PARENT=NONE) found".to_string()));
+        }
+
         Ok(Self {
             subgrids,
             lookup_table,
